@@ -3,6 +3,7 @@
 -/
 import Driver.Cmds
 import Desync.Model.Assemble
+import Desync.Model.CrashFS
 
 namespace Driver
 open Desync Desync.Asm
@@ -94,11 +95,46 @@ def cmdAsmClone (a : Args) : String :=
     | some t => "ok " ++ toHex t
   | _, _ => "bad-op"
 
+/-- `crash.accept writers=finalhex|tmphex|payloadhex;… events=mk:i,create:i,write:i:k,close:i,rename:i,werr:i` :
+    replay a syscall trace of `LocalStore.StoreChunk` through the crash machine -/
+def cmdCrashAccept (a : Args) : String :=
+  let ws : Option (List CrashFS.Writer) :=
+    (if (a.get "writers").isEmpty then [] else (a.get "writers").splitOn ";").mapM fun w =>
+      match w.splitOn "|" with
+      | [f, t, p] => match ofHex f, ofHex t, ofHex p with
+        | some f, some t, some p => some { final := f, tmp := t, payload := p }
+        | _, _, _ => none
+      | _ => none
+  let evs : Option (List CrashFS.Ev) :=
+    (if (a.get "events").isEmpty then [] else (a.get "events").splitOn ",").mapM fun e =>
+      match e.splitOn ":" with
+      | ["mk", i] => i.toNat?.map .mkdir
+      | ["create", i] => i.toNat?.map .create
+      | ["write", i, k] => match i.toNat?, k.toNat? with
+        | some i, some k => some (.write i k)
+        | _, _ => none
+      | ["werr", i] => i.toNat?.map .writeErr
+      | ["close", i] => i.toNat?.map .close
+      | ["rename", i] => i.toNat?.map .rename
+      | _ => none
+  match ws, evs with
+  | some ws, some evs =>
+    let rec go (s : CrashFS.St) (k : Nat) : List CrashFS.Ev → String
+      | [] =>
+        let ents := s.dir.map fun (n, c) => toHex n ++ ":" ++ toHex c
+        "ok dir=" ++ String.intercalate "," (ents.toArray.qsort (· < ·)).toList
+      | e :: es => match CrashFS.step s e with
+        | none => s!"reject at event {k}"
+        | some s' => go s' (k + 1) es
+    go { dir := [], writers := ws } 0 evs
+  | _, _ => "bad-op"
+
 def runLine2 (l : String) : String :=
   match l.splitOn " " with
   | "asm.run" :: rest => cmdAsmRun (parseArgs rest) false
   | "asm.plan" :: rest => cmdAsmRun (parseArgs rest) true
   | "asm.clone" :: rest => cmdAsmClone (parseArgs rest)
+  | "crash.accept" :: rest => cmdCrashAccept (parseArgs rest)
   | _ => runLine l
 
 end Driver
